@@ -15,6 +15,9 @@ impl RespFrame {
         ensures r == RespFrame::BulkString(Some(Arc::new(bytes))),
 //@@ body
 //@@ end
+    /// ASSUMED CONTRACT (resp.rs null_array; proved in srv_exec)
+    #[verifier::external_body]
+    pub fn null_array() -> (r: Self) ensures r == RespFrame::Array(None), { unimplemented!() }
 //@@ unit resp_null_bulk fn src/protocol/resp.rs RespFrame::null_bulk
     pub fn null_bulk() -> (r: Self)
         ensures r == RespFrame::BulkString(None),
